@@ -124,7 +124,7 @@ impl<'g> W<'g> {
                 }
                 for (i, x) in v.iter().enumerate() {
                     if i > 0 && self.has_skip {
-                        let _ = writeln!(self.out, "{pad}    for sk in {a}.{i}.skipped.iter() {{ harness::walk::gap(sk.content.len(), w); }}");
+                        let _ = writeln!(self.out, "{pad}    for sk in {a}.{i}.skipped.iter() {{ harness::walk::gap(harness::walk::SkipLen::skip_len(sk), w); }}");
                     }
                     let e = self.fresh();
                     let _ = writeln!(self.out, "{pad}    {{ let {e} = {m}.{i}; harness::walk::same_node({e}, &{a}.{i}.matched, w);");
@@ -182,7 +182,7 @@ impl<'g> W<'g> {
                 let _ = writeln!(self.out, "{pad}{{ harness::walk::rep({var}.iter_matched().count(), {var}.iter_all().count(), {var}.clone().into_iter_matched().count(), {var}.content.len(), w);");
                 let _ = writeln!(self.out, "{pad}    for ({idx}, ({it}, {e})) in {var}.iter_all().zip({var}.iter_matched()).enumerate() {{");
                 if self.has_skip {
-                    let _ = writeln!(self.out, "{pad}        if {idx} > 0 {{ for sk in {it}.skipped.iter() {{ harness::walk::gap(sk.content.len(), w); }} }}");
+                    let _ = writeln!(self.out, "{pad}        if {idx} > 0 {{ for sk in {it}.skipped.iter() {{ harness::walk::gap(harness::walk::SkipLen::skip_len(sk), w); }} }}");
                 } else {
                     let _ = writeln!(self.out, "{pad}        let _ = {idx};");
                 }
@@ -218,13 +218,18 @@ pub fn grammar_module(src: &GrammarSrc, with_variants: bool, with_walker: bool) 
     let _ = writeln!(o, "    pub mod t {{ #[derive(pest_typed_derive::TypedParser)] #[grammar_inline = {gl}] #[emit_rule_reference] #[no_warnings] pub struct T; }}");
     let _ = writeln!(o, "    pub mod p {{ #[derive(pest_derive::Parser)] #[grammar_inline = {gl}] pub struct P; }}");
     if with_variants {
+        // the option variants get the grammar as written, without the wrapper rules (they only
+        // serve pest's end offset): a one-rule grammar stays a one-rule grammar, a grammar without
+        // a normal rule stays one
+        let as_written: String = src.text.lines().filter(|l| !l.starts_with("w__")).collect::<Vec<_>>().join("\n");
+        let gw = lit(&as_written);
         for (label, attrs) in VARIANTS {
-            let _ = writeln!(o, "    pub mod tv_{label} {{ #[derive(pest_typed_derive::TypedParser)] #[grammar_inline = {gl}] {attrs} pub struct T; }}");
+            let _ = writeln!(o, "    pub mod tv_{label} {{ #[derive(pest_typed_derive::TypedParser)] #[grammar_inline = {gw}] {attrs} pub struct T; }}");
         }
     }
     let has_skip = g.whitespace.is_some() || g.comment.is_some();
     let raw = Grammar::raw(&src.text).ok();
-    let user_rules: Vec<&refpeg::RuleDef> = g.rules.iter().filter(|r| !r.name.starts_with("w__")).collect();
+    let user_rules: Vec<&refpeg::RuleDef> = g.rules.iter().filter(|r| !r.name.starts_with("w__") && g.rule(&format!("w__{}", r.name)).is_some()).collect();
     for r in &user_rules {
         let n = &r.name;
         let view = match r.kind {
